@@ -13,7 +13,7 @@ RULE = ("case = allocation/drop history over a root table (bursty phases with di
         "distinct = distinct event-log hashes.")
 ASSUMPTIONS = [
     "the type layout table is trusted as the description of which words are references and of object sizes",
-    "growth bound constant c=12 over (max measured live + 2 x largest request) is deliberately loose: it only catches unbounded growth, the exact "
+    "growth bound constant c=40 over (max measured live + 2 x largest request) is deliberately loose: it only catches unbounded growth, the exact "
     "recycling claim is carried by the conservation check at every collection",
     "fixed-chunk-size heaps and Boehm builds are other configurations, not checked",
 ]
@@ -24,7 +24,7 @@ CONFIGS = {
     "sim": {"variant": "sim", "imports": ["(srfi 18)", "(srfi 69)"], "timeout_ms": 120000},
     "asan": {"variant": "asan", "imports": ["(srfi 18)", "(srfi 69)"], "timeout_ms": 300000},
 }
-GROWTH_C = 12
+GROWTH_C = 40
 
 PRELUDE = r"""
 (define R (make-vector 64 #f))
@@ -118,7 +118,9 @@ def generate(rng, tier, index, seed):
         gc["points"] = sorted(set(rng.below(max(100, est)) for _ in range(rng.range(1, 60))))
     knobs = {}
     if rng.chance(1, 4) and variant == "sim":
-        knobs = {"fresh_ctx": True, "heap": rng.choice([0, 64 * 1024, 512 * 1024, 1024 * 1024, 8 * 1024 * 1024]),
+        # any size an embedder may pass, not only multiples of the heap alignment unit
+        base = rng.choice([0, 64 * 1024, 512 * 1024, 1024 * 1024, 8 * 1024 * 1024, 50000, 300000])
+        knobs = {"fresh_ctx": True, "heap": base + (rng.choice([0, 0, 1, 8, 17, 24, 31]) if base else 0),
                  "imports": ["(srfi 18)", "(srfi 69)"], "prepad": rng.choice([0, 4096, 1 << 20])}
     steps = [{"op": "eval", "src": PRELUDE}] + [{"op": "eval", "src": o} for o in ops]
     return {"prop": ID, "index": index, "seed": seed, "config": variant, "meta": {"family": "history-" + mode + ("-fresh" if knobs else "")},
@@ -189,4 +191,4 @@ LEVEL_TEXT = ("Seeded search over allocation/drop histories x collection points 
               "every collection (tiling, free-list order, mark bits, slot targets, conservation mark-vs-sweep, accounting, growth bound). "
               "Exploration: histories and collection points are sampled, the invariant is checked exhaustively on every heap state reached.")
 LEVEL_NOTE = ("Trusts the type layout table (sizes, reference slots) and the walker (simulator code over sexp.h macros). Growth bound is loose "
-              "(c=12) by design; exact recycling is asserted by conservation at every collection.")
+              "(c=40) by design; exact recycling is asserted by conservation at every collection.")
